@@ -86,6 +86,25 @@ impl Append for ScriptA {
     fn flush(&self) {}
 }
 
+/// The same capture behind the `log::Log` trait (log4rs accepts any `Log` as an appender). Its own
+/// `enabled` says no to everything: delivery is decided by the filter chain, not by the appender.
+#[derive(Debug)]
+struct LogA {
+    app: usize,
+    log: Log,
+}
+
+impl log::Log for LogA {
+    fn enabled(&self, _: &log::Metadata) -> bool {
+        false
+    }
+    fn log(&self, record: &Record) {
+        let rec = rec_id(record);
+        self.log.lock().unwrap().push(Ev::Append { app: self.app, rec });
+    }
+    fn flush(&self) {}
+}
+
 /// One filter of a chain: scripted response or the real threshold filter.
 #[derive(Clone, Copy, Debug, PartialEq)]
 enum F {
@@ -135,6 +154,7 @@ fn build(apps: &[AppSpec], root_level: LevelFilter, on_child: &[usize]) -> Resul
     let mut root = Root::builder();
     for (i, a) in apps.iter().enumerate() {
         let mut ab = Appender::builder();
+        let mut boxes: Vec<Box<dyn Filter>> = vec![];
         for (pos, f) in a.chain.iter().enumerate() {
             let boxed: Box<dyn Filter> = match *f {
                 F::S(resp) => Box::new(ScriptF {
@@ -145,16 +165,39 @@ fn build(apps: &[AppSpec], root_level: LevelFilter, on_child: &[usize]) -> Resul
                 }),
                 F::T(l) => Box::new(ThresholdFilter::new(l)),
             };
-            ab = ab.filter(boxed);
+            boxes.push(boxed);
         }
-        b = b.appender(ab.build(
-            format!("app{}", i),
+        // every way of declaring the same chain through the builder: one by one, in bulk, mixed
+        match (i + a.chain.len()) % 3 {
+            0 => {
+                for bx in boxes {
+                    ab = ab.filter(bx);
+                }
+            }
+            1 => ab = ab.filters(boxes),
+            _ => {
+                let mut it = boxes.into_iter();
+                if let Some(first) = it.next() {
+                    ab = ab.filter(first);
+                }
+                let mut rest: Vec<Box<dyn Filter>> = it.collect();
+                let last = if rest.len() >= 2 { rest.pop() } else { None };
+                ab = ab.filters(rest);
+                if let Some(l) = last {
+                    ab = ab.filter(l);
+                }
+            }
+        }
+        let sink: Box<dyn Append> = if !a.fail && i % 3 == 2 {
+            Box::new(LogA { app: i, log: log.clone() })
+        } else {
             Box::new(ScriptA {
                 app: i,
                 fail: a.fail,
                 log: log.clone(),
-            }),
-        ));
+            })
+        };
+        b = b.appender(ab.build(format!("app{}", i), sink));
         root = root.appender(format!("app{}", i));
     }
     let mut child = Logger::builder().additive(true);
